@@ -107,8 +107,11 @@ class World:
             r"get_or_create_counter$": m_get_or_create("Counter"), r"get_or_create_gauge$": m_get_or_create("Gauge"), r"get_or_create_histogram$": m_get_or_create("Histogram"),
             r"get_counter_handles$": m_handles("Counter"), r"get_gauge_handles$": m_handles("Gauge"), r"get_histogram_handles$": m_handles("Histogram"),
             r"AtomicBucket::clear_with$": m_clear_with, r"AtomicBucket::data_with$": m_data_with,
+            r"AtomicBucket::data$": lambda eng, ctx, f, path, args, dty: MC.load(eng, ctx, args[0]),
+            r"AtomicBucket::clear$": lambda eng, ctx, f, path, args, dty: m_clear_with(eng, ctx, f, path, [args[0], Native("callback", lambda e_, c_, f_, a_: UNIT)], dty),
+            r"^Vec::extend_from_slice$": lambda eng, ctx, f, path, args, dty: (eng.store_ptr(ctx, args[0], MS.lvec(tuple(MC.load(eng, ctx, args[0]).data) + tuple(MC.load(eng, ctx, args[1]).data))), UNIT)[1],
             r"^KeyName::as_str$|^String::as_str$": lambda eng, ctx, f, path, args, dty: MC.load(eng, ctx, args[0]),
-            r"^<str as PartialEq>::(eq)$|^<String as PartialEq>::eq$|^<KeyName as PartialEq>::eq$": m_str_eq,
+            r"^<&?str as PartialEq>::eq$|^<String as PartialEq>::eq$|^<KeyName as PartialEq>::eq$": m_str_eq,
             r"^core::slice::(.*::)?iter$": m_slice_iter, r"as Iterator>::map$": MS.m_map, r"^Vec::extend$|as Extend>::extend$": m_extend, r"^Vec::new$": lambda *a: MS.lvec(()), r"^Vec::push$": m_vec_push,
             r"^<Arc as Deref>::deref$|^<Arc as Clone>::clone$|^Arc::clone$": m_deref_arc,
             r"^<Key as Clone>::clone$|as ToOwned>::to_owned$|as ToString>::to_string$|as Into>::into$|^<OrderedFloat as From>::from$|f64::from_bits$|as Clone>::clone$":
